@@ -12,20 +12,20 @@ Proof.
 Qed.
 
 Lemma appenduid_truthful_l : forall s f fl s' v u,
-  Inv s -> (forall l, In l (links s) -> lk_msg l < next_msg s) ->
+  Inv s ->
   step s (OAppend f fl) = (s', RAppendUid v u) ->
   exists m l, In m (mboxes s') /\ In l (links s') /\ mb_name m = f /\ mb_validity m = v /\
               lk_mbox l = mb_id m /\ lk_uid l = u /\ lk_msg l = next_msg s /\ lk_gid l = gser s.
 Proof.
-  intros s f fl s' v u I Hmsg H. simpl in H. unfold op_append in H.
+  intros s f fl s' v u I H. pose proof (inv_msg s I) as Hmsg. simpl in H. unfold op_append in H.
   destruct (find_name s f) as [m0|] eqn:Fn; [|discriminate].
   apply find_name_some in Fn. destruct Fn as [Hm0 En].
   unfold store_message in H.
   set (s2 := mkStore (mboxes s) (links s) (next_msg s + 1) (glog s) (gused s) (gser s)) in *.
-  assert (E : CoreEq s s2) by (repeat split).
+  assert (E : CoreEq s s2) by (repeat split; simpl; lia).
   assert (I2 : Inv s2) by (eapply Inv_core_eq; eauto).
   assert (Hf : find_id s2 (mb_id m0) = Some m0) by (apply find_id_in; auto).
-  destruct (add_message_good s2 (next_msg s) (mb_id m0) fl m0 I2 Hf) as (s3 & Ea & _ & Em & El & _).
+  destruct (add_message_good s2 (next_msg s) (mb_id m0) fl m0 I2 Hf ltac:(simpl; lia)) as (s3 & Ea & _ & Em & El & _).
   rewrite Ea in H.
   set (new := mkLink (fresh_id (map lk_id (links s2))) (next_msg s) (mb_id m0) (mb_next m0) fl (gser s2)) in *.
   assert (Fi : find_id s3 (mb_id m0) = Some (bump_row (mb_id m0) m0)).
@@ -52,9 +52,9 @@ Proof.
   apply find_name_some in Fn. destruct Fn as [Hm _].
   unfold store_message.
   set (s2 := mkStore (mboxes s) (links s) (next_msg s + 1) (glog s) (gused s) (gser s)).
-  assert (E : CoreEq s s2) by (repeat split).
+  assert (E : CoreEq s s2) by (repeat split; simpl; lia).
   assert (I2 : Inv s2) by (eapply Inv_core_eq; eauto).
   assert (Hf : find_id s2 (mb_id m) = Some m) by (apply find_id_in; auto).
-  destruct (add_message_good s2 (next_msg s) (mb_id m) fl m I2 Hf) as (s3 & -> & _).
+  destruct (add_message_good s2 (next_msg s) (mb_id m) fl m I2 Hf ltac:(simpl; lia)) as (s3 & -> & _).
   simpl. eauto.
 Qed.
